@@ -411,12 +411,24 @@ class Interp(EngineBase):
             o = Opaque('path')
             o.arg = self.as_int_term(b)
             return o
+        if isinstance(op, ast.Add) and isinstance(a, ListObj) and isinstance(b, ListObj):
+            # list concatenation: multiplicities add up
+            self.bag_facts(a)
+            self.bag_facts(b)
+            x = z3.Int('cc_x')
+            r = ListObj(z3.Lambda([x], z3.Select(a.cnt, x) + z3.Select(b.cnt, x)), a.n + b.n, a.elem or b.elem)
+            return r
         for v in (a, b):
-            if isinstance(v, EnumConst) or (isinstance(v, Sym) and v.kind in ('enum', 'ref', 'str')) or v is None \
-                    or isinstance(v, (ListObj, DictObj, Record, ObjV)):
-                # arithmetic on a non-number: Python raises TypeError
+            if isinstance(v, (ListObj, PyList, TupleV, str)) or (isinstance(v, Sym) and v.kind == 'str'):
+                raise OutOfSubset(f"sequence arithmetic at line {getattr(node, 'lineno', '?')}")
+            if (isinstance(v, EnumConst) and not any(bb in ('int', 'str') for bb in self.src.bases.get(v.cls, []))) \
+                    or (isinstance(v, Sym) and v.kind == 'enum' and not any(bb in ('int', 'str') for bb in self.src.bases.get(v.cls, []))) \
+                    or v is None or isinstance(v, (DictObj, Record, ObjV)):
+                # arithmetic between a number and None / a plain Enum member / a dict / an object: Python raises TypeError
                 self.check_or_raise(False, 'TypeError', node, f"arithmetic on {self.kind_name(v)}")
                 raise PathEnd('TypeError')
+            if isinstance(v, Sym) and v.kind in ('enum', 'ref'):
+                raise OutOfSubset(f"arithmetic on {self.kind_name(v)} at line {getattr(node, 'lineno', '?')}")
         x, y = self.num(a), self.num(b)
         ai = (isinstance(a, int) or getattr(a, 'isint', False)) and (isinstance(b, int) or getattr(b, 'isint', False))
         if isinstance(op, ast.Add):
